@@ -32,7 +32,7 @@ def build_condition(C, mode, pv):
 def gen_params(r, mode, big):
     s = r.choice([1e-3, 1.0, 1.0, 1e3]) if big else 1.0
     # exact zeros are admissible parameter values and a classic special case (`if x:` vs `if x is None:`)
-    val = lambda: 0.0 if r.random() < 0.12 else dy(r, -4, 4) * s
+    val = lambda: 0.0 if r.random() < 0.12 else (dy(r, -4, 4) + (r.choice([0.1, 1.0 / 3.0]) if r.random() < 0.3 else 0.0)) * s
     # a third of the locations are NOT dyadic (0.1, 1/3, ...: not representable in float32, inexact in float64), so a
     # silent precision loss (float32 round trip, decimal truncation) shows up against the EXACT tolerance below
     nd = lambda v: v + r.choice([0.1, 0.3, 1.0 / 3.0, 0.7]) if r.random() < 0.35 else v
@@ -140,6 +140,33 @@ def run_cases(ck, res, n_cases, n_interval):
                                 dict(inp, network='in-place'), expected=exp, actual=upv[i])
             except Exception as e:
                 ck.fail(f'{mode}/enforce-raises/in-place-network', f'enforce raised {type(e).__name__}: {e}', dict(inp, network='in-place'))
+        # ---- a network whose OUTPUT has a lower precision than the samples (a float32 model fed float64 coordinates,
+        #      mixed-precision training): the prescribed values must not be rounded to the network's dtype
+        if ci % 5 == 2 and mode in ('IVP_value', 'IVP_prime', 'DBVP', 'DEBVP_dd'):
+            class _LowPrec(torch.nn.Module):
+                def __init__(self, base):
+                    super().__init__()
+                    self.base = base
+
+                def forward(self, x):
+                    return self.base(x).float()
+            try:
+                tl = enga.col(torch, pts)
+                ul = cond.enforce(_LowPrec(net), tl)
+                dul = safe_diff(ul, tl)
+                ulv = [float(x) for x in ul.detach().reshape(-1)]
+                dulv = [float(x) for x in dul.detach().reshape(-1)]
+                if str(ul.dtype) == 'torch.float64':
+                    for (pt, what, exp) in boundary_expect(mode, pv):
+                        i = pts.index(pt)
+                        got = ulv[i] if what == 'value' else dulv[i]
+                        # the derivative involves N (float32) times an exactly-zero factor only at the constrained point
+                        if not enga.close(got, exp, scale, rel=enga.EXACT if what == 'value' else 1e-6):
+                            ck.fail(f'{mode}/{what}@{"lo" if i == 0 else "hi"}/float32-network-output',
+                                    f'{mode}: with a float32 network output on float64 samples the enforced {what} at the constrained point is {got!r}, prescribed {exp!r}',
+                                    dict(inp, network='float32 output'), expected=exp, actual=got)
+            except Exception as e:
+                ck.fail(f'{mode}/enforce-raises/float32-network-output', f'enforce raised {type(e).__name__}: {e}', dict(inp, network='float32 output'))
         # ---- the same under default dtype float32 with explicit float64 samples: a Python number that the code turns into
         #      a default-dtype tensor (as_tensor, torch.tensor(...)) silently loses precision; exactness must not depend on it
         if ci % 4 == 0:
